@@ -103,6 +103,7 @@ def load_registry():
                 "unwind": kv.get("unwind"),
                 "bound": kv.get("bound"),
                 "fn": kv.get("fn", ""),
+                "solver": kv.get("solver", "minisat"),
                 # big=yes: the pre-state size bound is MAX_CAP, so the thorough tier repeats the
                 # harness with MAX_CAP = 2^40
                 "big": kv.get("big", "no") == "yes",
@@ -242,6 +243,7 @@ def _limits(mem_gb):
 def kani_cmd(h, extra=()):
     cmd = ["cargo", "kani", "-Z", "stubbing", "-Z", "function-contracts", "-Z", "unstable-options",
            "--harness", h["full"], "--exact", "--output-format", "regular", "--no-assertion-reach-checks"]
+    cmd += ["--solver", h.get("solver") or "minisat"]
     if h.get("features"):
         cmd += ["--features", h["features"]]
     if h.get("unwind"):
